@@ -1137,24 +1137,9 @@ func (h *hist) knownClass(s Step) string {
 			}
 		}
 	}
-	if r.Kind != belongsTo {
-		return ""
-	}
-	current := func(o uint) uint { return h.m.boss[r.Name][o] }
-	switch s.Act {
-	case "clear":
-		// a pointer relation field of the owner object points at a zeroed struct (left there by a
-		// has-one Delete/Clear or a belongs-to Delete that matched): the Clear's unrestricted
-		// UpdateColumns on the owner would store it. (Boss.Clear resets its own field first.)
-		for i := range h.su.Mem {
-			o := h.memOwner(i)
-			if (o.One != nil && o.One.ID == 0) || (s.Rel != "Boss" && o.Boss != nil && o.Boss.ID == 0) ||
-				(s.Rel != "Guild" && o.Guild != nil && o.Guild.ID == 0) {
-				return "hasone-zero-pointer"
-			}
-		}
-		// slice of owners whose other belongs-to relation differs: the same unrestricted
-		// UpdateColumns writes one owner's other foreign key to every owner of the slice
+	if r.Kind == belongsTo && s.Act == "clear" {
+		// slice of owners whose other belongs-to relations differ: the Clear's unrestricted
+		// UpdateColumns(map) writes one owner's other foreign key to every owner of the slice
 		for _, other := range belongsToRels {
 			for _, o := range h.su.Mem {
 				if other != s.Rel && h.m.boss[other][o] != h.m.boss[other][h.su.Mem[0]] {
@@ -1162,50 +1147,10 @@ func (h *hist) knownClass(s Step) string {
 				}
 			}
 		}
-		if s.Unscoped {
-			for _, o := range h.su.Mem {
-				if current(o) != 0 {
-					return "belongsto-unscoped-replace"
-				}
-			}
-		}
-	case "append", "replace":
-		if s.Unscoped && r.PtrFK { // pointer foreign key
-			for _, o := range h.su.Mem {
-				if current(o) != 0 {
-					return "belongsto-unscoped-replace-newtarget"
-				}
-			}
-		}
-		if s.Unscoped && !r.PtrFK { // value foreign key: only re-setting the current target goes wrong
-			for i, o := range h.su.Mem {
-				if c := current(o); c != 0 && s.Args[i][len(s.Args[i])-1].ID == c {
-					return "belongsto-unscoped-replace-same"
-				}
-			}
-		}
-	case "delete":
-		if s.Unscoped {
-			for _, o := range h.su.Mem {
-				if b := current(o); b != 0 {
-					named := false
-					for _, v := range s.Args[0] {
-						named = named || v.ID == b
-					}
-					if !named {
-						return "belongsto-unscoped-delete-unnamed"
-					}
-				}
-			}
-			if r.Ref { // the named current target must be deleted, but is looked up by the wrong column
-				for _, o := range h.su.Mem {
-					if current(o) != 0 {
-						return "belongsto-unscoped-references-nonprimary"
-					}
-				}
-			}
-		}
 	}
+	// (the classes hasone-zero-pointer and belongsto-unscoped-{replace, replace-newtarget, replace-same,
+	// delete-unnamed, references-nonprimary} are repaired in gorm: nothing is excluded for them, their
+	// witnesses below are regression tests, and Unscoped belongs-to calls are fully inside the domain)
 	return ""
 }
 
@@ -1946,7 +1891,7 @@ func TestC12(t *testing.T) {
 	})
 }
 
-// ---- witnesses of known findings ----------------------------------------------------------------------
+// ---- witnesses of known findings (open: fail while the defect exists; fixed: regression tests) ----------
 
 func sliceSetup(kind string, n int) Setup {
 	su := plainSetup(kind)
